@@ -1385,3 +1385,47 @@ def pipeline_fit_order(ctx, stacked, trend):
     ctx.ensure("fit-data=field-trend", ctx.And(*[ctx.eq(rec.seen[k], arr(ctx, det[k])) for k in range(nf)]))
     want = [[d - mu for d in det[k]] for k in range(nf)]
     ctx.ensure("out=normalize(field-trend)-mean", ctx.eq(out[0], arr(ctx, want if stacked else want[0])))
+
+
+# --- normalizers given as a CLASS (or None): every call gets its own default instance -----------------------------
+def normalizer_class_history(ctx, cls, entry):
+    """call history: a normalizer handed over as a class means 'a default instance of that class' in EVERY call;
+    fitting it in one call (fit_normalizer=True) must not leak into a later call that passes the class again"""
+    import gstools as gs
+    ok_fresh = ok_same = True
+    with symrun.native():
+        C = getattr(gs.normalizer, cls)
+        rng = np.random.RandomState(3)
+        pos = rng.rand(2, 30) * 10
+        data1 = np.exp(rng.randn(30) * 0.8 + 1.0) + 0.3
+        data2 = np.exp(rng.randn(30) * 0.3) + 0.1
+        bins = np.array([0.5, 2.0, 4.0, 6.0])
+        if entry == "vario_estimate":
+            out1 = gs.vario_estimate(pos, data1, bins, normalizer=C, fit_normalizer=True)
+            got = gs.vario_estimate(pos, data2, bins, normalizer=C)[1]
+            ref = gs.vario_estimate(pos, C().normalize(data2), bins)[1]
+            ok_same = np.allclose(got, ref, rtol=1e-10, atol=1e-12)
+            n1 = out1[-1]
+        elif entry == "remove_trend_norm_mean":
+            _, n1 = ntools.remove_trend_norm_mean(pos, data1, normalizer=C, fit_normalizer=True, check_shape=False)
+            got = ntools.remove_trend_norm_mean(pos, data2, normalizer=C, check_shape=False)
+            ok_same = np.allclose(got, C().normalize(data2), rtol=1e-10, atol=1e-12)
+        else:       # Krige with a fitted normalizer class, then a second object with the class
+            k1 = gs.krige.Ordinary(gs.Gaussian(dim=2), pos, data1, normalizer=C, fit_normalizer=True)
+            n1 = k1.normalizer
+            k2 = gs.krige.Ordinary(gs.Gaussian(dim=2), pos, data2, normalizer=C)
+            ok_same = k2.normalizer is not n1 and k2.normalizer == C()
+        n2 = ntools._check_normalizer(C)
+        ok_fresh = n2 is not n1 and n2 == C() and ntools._check_normalizer(C) is not n2 and \
+            ntools._check_normalizer(None) is not ntools._check_normalizer(None)
+    ctx.ensure("later-call-with-the-class=call-with-a-default-instance", ok_same)
+    ctx.ensure("class-or-None->new-default-instance-per-call", ok_fresh)
+
+
+NORM_HIST = [{"cls": c, "entry": e} for c in ("BoxCox", "YeoJohnson", "LogNormal")
+             for e in ("vario_estimate", "remove_trend_norm_mean", "Krige")]
+NORM_HIST_FN = ["normalizer/tools.py:_check_normalizer", "normalizer/tools.py:remove_trend_norm_mean",
+                "normalizer/base.py:Normalizer.fit"]
+NORM_HIST_B = "native run: 30 points in 2-D, two data sets, three normalizer classes, three entry points"
+contract(P, "normalizer.tools._check_normalizer[class-given]/no-fitted-state-shared-between-calls", params=NORM_HIST,
+         functions=NORM_HIST_FN, bounded=NORM_HIST_B)(normalizer_class_history)
